@@ -214,6 +214,14 @@ def cmd_check(prop, tier, base_seed, workers, no_selftest=False, limit=None):
         'wall_s': round(wall, 2),
         'violations': len(reported),
     }
+    if agg['by_profile'].get('frag-grid'):
+        evidence['coverage'].update({
+            'length_window_points_run': agg['by_profile']['frag-grid'],
+            'length_window_points_total': checks.grid_total(),
+            'length_window': ('fragment size in %s x framing {tcp, ws} x data length 0..2F+24 x metadata length {none, 0..2F+24}; each point '
+                              'runs request-response, fire-and-forget, request-stream and two request-channels with that payload shape; '
+                              'quick strides through the window, thorough visits every point once' % list(checks.P.FRAG_GRID_F)),
+        })
     if agg.get('sweep_bases'):
         evidence['coverage'].update({
             'sweep_base_plans': agg['sweep_bases'],
